@@ -167,3 +167,20 @@ M('C14', 'near-mesh-wrong-face-normal', FIF, """                    check.near_c
 M('C14', 'create-flip-winding', FIF, "                [map_back[&t[0]], map_back[&t[1]], map_back[&t[2]]]", "                [map_back[&t[0]], map_back[&t[2]], map_back[&t[1]]]", 'create_from_indices:winding')
 M('C14', 'unique-vertices-unsorted', FIF, "        keep_order.sort_unstable();\n", "", 'unique_vertices:sorted')
 M('C14', 'unique-vertices-two', FIF, "            to_save.insert(t[2]);\n", "", 'unique_vertices:three')
+
+# ---------------------------------------------------------------- C19
+I3F = 'src/geom3/iso3.rs'
+SVF = 'src/common/svd_basis.rs'
+P3F = 'src/geom3/plane3.rs'
+M('C19', 'basis-xz-left-handed', I3F, "        let e1 = e2.cross(&e0).try_normalize(1e-10).ok_or(\"Could not normalize e1\")?;\n        let e2 = e0.cross(&e1)", "        let e1 = e0.cross(&e2).try_normalize(1e-10).ok_or(\"Could not normalize e1\")?;\n        let e2 = e0.cross(&e1)", 'try_from_basis_xz:right-handed')
+M('C19', 'basis-zy-swapped-cross', I3F, "        let e0 = e1.cross(&e2).try_normalize(1e-10).ok_or(\"Could not normalize e0\")?;\n        let e1 = e2.cross(&e0).try_normalize(1e-10).ok_or(\"Could not normalize e2\")?;", "        let e0 = e1.cross(&e2).try_normalize(1e-10).ok_or(\"Could not normalize e0\")?;\n        let e1 = e0.cross(&e2).try_normalize(1e-10).ok_or(\"Could not normalize e2\")?;", 'try_from_basis_zy:right-handed')
+M('C19', 'basis-yx-unguarded-normalize', I3F, "        let e2 = e0.cross(&e1).try_normalize(1e-10).ok_or(\"Could not normalize e2\")?;\n        let e0 = e1.cross(&e2)", "        let e2 = e0.cross(&e1).normalize();\n        let e0 = e1.cross(&e2)", 'try_from_basis_yx:normalisation-guarded')
+M('C19', 'from_bases-column-order', I3F, "    let rot_m = Matrix3::from_columns(&[e0, e1, e2]);\n    let r = UnitQuaternion::from_matrix(&rot_m);\n    let t = if let Some(o) = origin {", "    let rot_m = Matrix3::from_columns(&[e1, e0, e2]);\n    let r = UnitQuaternion::from_matrix(&rot_m);\n    let t = if let Some(o) = origin {", 'from_bases')
+M('C19', 'iso3_from_basis-left-handed', SVF, "    let b2 = b0.cross(&b1).normalize();", "    let b2 = b1.cross(&b0).normalize();", 'iso3_from_basis')
+M('C19', 'svd-weighted-scale-centre', SVF, "                .map(|(p, w)| (p - center) * *w)", "                .map(|(p, w)| p - center * *w)", 'AFFINE')
+M('C19', 'svd-centre-not-stored', SVF, "            let center = mean_point(points);\n            let vectors = points.iter().map(|p| p - center).collect::<Vec<_>>();\n            svd_from_vectors(&vectors, Some(center))", "            let center = mean_point(points);\n            let vectors = points.iter().map(|p| p - center).collect::<Vec<_>>();\n            svd_from_vectors(&vectors, None)", 'from_points:centre')
+M('C19', 'svd-columns-instead-of-rows', SVF, "            basis[i][j] = v_t[(i, j)];", "            basis[i][j] = v_t[(j, i)];", 'svd_from_vectors:rows')
+M('C19', 'plane-inverted-keeps-d', P3F, "        Self::new(-self.normal, -self.d)", "        Self::new(-self.normal, self.d)", 'inverted_normal')
+M('C19', 'plane-three-point-order', P3F, "UnitVec3::new_normalize((p2 - p1).cross(&(p3 - p1)))", "UnitVec3::new_normalize((p3 - p1).cross(&(p2 - p1)))", 'Plane3::from(p1,p2,p3)')
+M('C19', 'plane-project-sign', P3F, "        point - self.normal.into_inner() * self.signed_distance_to_point(point)", "        point + self.normal.into_inner() * self.signed_distance_to_point(point)", 'project_point')
+M('C19', 'neutral-basis-xy-helper-temp', I3F, "        let e2 = e0.cross(e1).try_normalize(1e-10).ok_or(\"Could not normalize e2\")?;\n        let e1 = e2.cross(&e0)", "        let raw = e0.cross(e1);\n        let e2 = raw.try_normalize(1e-10).ok_or(\"Could not normalize e2\")?;\n        let e1 = e2.cross(&e0)", kind='neutral')
